@@ -41,17 +41,19 @@ def a_count_parser(ctx):
     for fname, adtp, names in (("consume_truth", "enum_narsese::sentence::truth::Truth", ["new_empty", "new_single", "new_double"]),
                                ("consume_budget", "enum_narsese::task::budget::Budget", ["new_empty", "new_single", "new_double", "new_triple"])):
         it2 = maps.enum_parser_fn(ctx, fname)
-        ms = [n for n in hir.walk(it2["body"]) if n.get("k") == "Match" and field_path(n["scrut"]) == ("num",)]
-        if len(ms) != 1:
-            ctx.unrecognised("A-COUNT", fname, "no `match num` found")
-            continue
-        # names of the float bindings, in order, from the destructuring let
-        lets = [s for s in hir.walk(it2["body"]) if s.get("k") == "Let" and s["pat"]["k"] == "Tuple"]
-        order = []
+        # names of the float bindings, in order, and of the count, from the destructuring `let ([a, b, ..], count) = parse_separated_floats(..)?`
+        lets = [s for s in hir.walk(it2["body"]) if s.get("k") == "Let" and s["pat"]["k"] == "Tuple" and len(s["pat"]["pats"]) == 2]
+        order, count_name = [], None
         if lets:
-            sl = lets[0]["pat"]["pats"][0]
+            sl, cn = lets[0]["pat"]["pats"]
             if sl["k"] == "Slice":
                 order = [x.get("name") for x in sl["before"]]
+            if cn["k"] == "Binding":
+                count_name = cn["name"]
+        ms = [n for n in hir.walk(it2["body"]) if n.get("k") == "Match" and count_name and field_path(n["scrut"]) == (count_name,)]
+        if len(ms) != 1:
+            ctx.unrecognised("A-COUNT", fname, "no `match <count>` on the count returned by parse_separated_floats found")
+            continue
         seen = {}
         for v, arm, pat in hir.arms_by_variant(ms[0]):
             b = strip(arm["body"])
